@@ -122,8 +122,10 @@ class WriteMacro(Rewrite):
     rule = 'R-write'
     METHODS = {'': 'write_disp', ':04': 'write_dec04', ':04x': 'write_hex04', ':x': 'write_hex', ':?': None}
 
-    def __init__(self, count='*', ok='Ok(())'):
-        self.count, self.ok = count, ok
+    def __init__(self, count='*', ok='Ok(())', infallible=False, arg_methods=None):
+        # infallible: the sink is a String (fmt::Write for String never fails): no `?`, each piece `.ok();`
+        # arg_methods: {argument text (whitespace-free): method} -- type-directed choice of the `{}` shim method
+        self.count, self.ok, self.infallible, self.arg_methods = count, ok, infallible, arg_methods or {}
 
     def apply(self, text, log):
         toks = code_tokens(text)
@@ -153,18 +155,25 @@ class WriteMacro(Rewrite):
                 for part in parts:
                     if part.startswith('{') and part.endswith('}'):
                         spec = part[1:-1]
+                        if re.fullmatch(r'[A-Za-z_][A-Za-z0-9_]*', spec):   # inline named argument `{name}`
+                            m = self.arg_methods.get(spec, 'write_disp')
+                            out.append(f'{w}.{m}({"&" if self.infallible else ""}{spec})' + ('.ok();' if self.infallible else '?;'))
+                            continue
                         m = self.METHODS.get(spec)
                         if m is None or vi >= len(vals):
                             raise AnchorLost(f'R-write: unsupported placeholder {part}')
-                        out.append(f'{w}.{m}({vals[vi]})?;'); vi += 1
+                        if spec == '':
+                            m = self.arg_methods.get(''.join(vals[vi].split()), m)
+                        out.append(f'{w}.{m}({"&" if self.infallible else ""}({vals[vi]}))' + ('.ok();' if self.infallible else '?;')); vi += 1
                     elif part != '':
                         lit = part.replace('\x00', '{').replace('\x01', '}')
-                        out.append(f'{w}.write_str("{lit}")?;')
+                        out.append(f'{w}.write_str("{lit}")' + ('.ok();' if self.infallible else '?;'))
                 if toks[i].text == 'writeln':
-                    out.append(f'{w}.write_str("\\n")?;')
+                    out.append(f'{w}.write_str("\\n")' + ('.ok();' if self.infallible else '?;'))
                 if vi != len(vals):
                     raise AnchorLost('R-write: argument count mismatch')
-                edits.append((toks[i].start, toks[c].end, '{ ' + ' '.join(out) + ' ' + self.ok + ' }')); n += 1
+                # implicit named arguments `{name}` in the format string
+                edits.append((toks[i].start, toks[c].end, '{ ' + ' '.join(out) + ' ' + (('Ok::<(), core::fmt::Error>(())') if self.infallible else self.ok) + ' }')); n += 1
                 i = c + 1; continue
             i += 1
         ok = (self.count == '*') or (self.count == '+' and n >= 1) or (self.count == n)
